@@ -130,15 +130,24 @@ impl ArgPatternArm {
     }
 
     fn render_success_arm(&self, global_guards: &[TokenStream]) -> proc_macro2::TokenStream {
-        let mut concatenated_guards = Vec::from_iter(global_guards);
-
         let local_guards = self
             .arg_matchers
             .iter()
             .filter_map(|m| m.render_guard())
             .collect::<Vec<_>>();
 
-        concatenated_guards.extend(&local_guards);
+        // The user's guard is an arbitrary expression (it may contain `||`):
+        // it must be parenthesized before being and-ed with the eq!/ne! guards.
+        let mut concatenated_guards = if local_guards.is_empty() {
+            global_guards.to_vec()
+        } else {
+            global_guards
+                .iter()
+                .map(|guard| quote! { (#guard) })
+                .collect::<Vec<_>>()
+        };
+
+        concatenated_guards.extend(local_guards);
 
         let if_guard = if !concatenated_guards.is_empty() {
             Some(quote! { if #(#concatenated_guards)&&* })
